@@ -49,6 +49,17 @@ check("C06", "model_checking",
       "explicit-state enumeration of session states x exhaustive refusal matrix, before/after digest oracle",
       "DESIGN.md §4 C06")
 
+check("C07", "model_checking",
+      "Every history of accrual, deposit, withdrawal (settlement succeeding or failing), forged withdrawal and a second wallet up to depth 4 (quick) / 6 (thorough) for three minimum/fee configurations is executed on the real PaymentService against a payout reference model (settle attempted iff signed and balance >= minimum, amount = deposit+credit-fee, balance cleared after success and untouched after failure/refusal, total paid equals the model); 2-3 racing withdrawals of one wallet are explored under the controlled scheduler with scheduling points at every BalanceStore call, the settlement and every statement of Withdraw.",
+      "Depth / preemption bounds; settlement and deposits modelled at the SettleHandler / BalanceStore seams; no fault injected between a successful settlement and the ledger update.",
+      "explicit-state BFS vs reference model + preemption-bounded schedule DFS + settlement fault sequences",
+      "DESIGN.md §4 C07")
+check("C08", "model_checking",
+      "Exhaustive sweep: every multiset of up to 3 (quick) / 4 (thorough) nodes over 6 variants x requester kind x requested kind x k in {-3,-1,0,1,2,5} x maximum x every ack/error/silent assignment x vipnode_peer / legacy vipnode_client runs through the real requestHosts, whose goroutines, channels, select and 5 s time-out execute under the controlled scheduler on a virtual clock; every reply is judged against the eligibility rules, the acknowledgement log of the fake hosts, the size limits and the completeness clause, and the execution is drained to detect goroutines blocked for good. A schedule DFS additionally enumerates all acknowledgement orders and early time-outs within a deviation bound.",
+      "Population size and deviation bounds; host choice under excess supply not judged; negative legacy NumHosts treated as absent.",
+      "exhaustive configuration enumeration under a controlled scheduler + deviation-bounded schedule DFS",
+      "DESIGN.md §4 C08")
+
 ALL = ["C%02d" % i for i in range(1, 21)]
 NA_REASON = "check not built yet (work in progress; see DESIGN.md §4 for the planned model-checking design)"
 
